@@ -22,7 +22,7 @@ func init() {
 	core.Register(&core.Prop{
 		ID:    "C11",
 		Level: "exploration",
-		Rule: "trial = channel (sync / queued blocking / queued non-blocking, Q in 1,2,8,64) closed by one of 7 closers (user goroutine, handler on the read loop, parent-context end, transport read failure, sender write failure, holder CloseAll, parent-context end followed by Close while the sender is busy on a slow transport) with one of 9 Close arguments (nil, sentinel, wrapped, timeout net.Error, non-timeout net.Error, io.EOF, io.ErrShortWrite, context.Canceled, net.ErrClosed); " +
+		Rule: "trial = channel (sync / queued blocking / queued non-blocking, Q in 1,2,8,64) closed by one of 7 closers (user goroutine, handler on the read loop, parent-context end, transport read failure, sender write failure, holder CloseAll, parent-context end followed by Close while the sender is busy on a slow transport) with one of 11 Close arguments (nil, sentinel, wrapped, timeout net.Error, non-timeout net.Error, io.EOF, io.ErrShortWrite, context.Canceled, net.ErrClosed, netty.ErrChannelClosed plain and wrapped); " +
 			"after the close has completed every write entry point (Write, Write1, Writev, CtxWrite1, CtxWritev, ReadFrom, Writer().Write) is called repeatedly (the queued select is random) with self-describing payloads; plus a concurrent variant where writers hammer while Close runs and only calls that began after Close returned are judged; " +
 			"oracle: err != nil and no byte of the payload is ever handed to Write/Writev (attempts on the closed mock are logged too); distinct_nontrivial = distinct (mode, queue, closer, argument, entry point, outcome) tuples",
 		Assumptions: []string{
@@ -58,11 +58,22 @@ var c11Args = []struct {
 	{"io.ErrShortWrite", io.ErrShortWrite},
 	{"context.Canceled", context.Canceled},
 	{"net.ErrClosed", net.ErrClosed},
+	// the error a write on another, already closed channel reported (a relay closing its peer with it)
+	{"netty.ErrChannelClosed", netty.ErrChannelClosed},
+	{"wrapped netty.ErrChannelClosed", fmt.Errorf("peer gone: %w", netty.ErrChannelClosed)},
 }
 
 var c11Closers = []string{"user", "read-loop-handler", "parent-context", "read-failure", "sender-write-failure", "holder-closeall", "shutdown-busy-sender", "close-before-serve"}
 
 var c11Entries = []string{"Write1", "Writev", "CtxWrite1", "CtxWritev", "Writer().Write", "ReadFrom", "Write"}
+
+// c11EntryName also names entry 7 (used by the grid only).
+func c11EntryName(e int) string {
+	if e == 7 {
+		return "Writer().Write(writer obtained before Close)"
+	}
+	return c11Entries[e]
+}
 
 type closeOnReadArg struct{ err error }
 
@@ -200,7 +211,10 @@ func runC11(c *core.Ctx) {
 func c11CloseBy(rig *mon.Rig, closer string, arg error, cancel context.CancelFunc, holder netty.ChannelHolder) bool {
 	switch closer {
 	case "user":
+		// Close is synchronous: it has returned when the call returns, whatever it did
 		rig.Ch.Close(arg)
+		rig.Ex.WaitOutstanding(0, 2*time.Second)
+		return true
 	case "close-before-serve":
 		// the connection is rejected while it is still being set up: Close on a channel that was never served
 		rig.Ch.Close(arg)
@@ -257,11 +271,12 @@ func c11Grid(c *core.Ctx, id string, m mon.Mode, q int, closer, argName string, 
 	}
 	rig := mon.NewRig(opts)
 	defer rig.Dispose()
+	earlyWriter := rig.Ch.Writer() // obtained while the channel was open, used after it was closed
 	if !c11CloseBy(rig, closer, arg, cancel, holder) {
 		c.Inconclusive(id, "watchdog: close by "+closer+" did not complete")
 		return
 	}
-	if rig.Ch.IsActive() {
+	if rig.Ch.IsActive() && closer != "user" {
 		c.Inconclusive(id, "channel still active after closer "+closer)
 		return
 	}
@@ -281,11 +296,16 @@ func c11Grid(c *core.Ctx, id string, m mon.Mode, q int, closer, argName string, 
 			calls = append(calls, call{e, seq, size, err})
 			seq++
 		}
+		// entry 7: the io.Writer handed out before the close
+		buf := mon.Payload(7, seq, sizes[r%len(sizes)])
+		_, err := earlyWriter.Write(buf)
+		calls = append(calls, call{7, seq, len(buf), err})
+		seq++
 	}
 	// let any sender action those calls may have started run to completion (a synchronous Close that returned without
 	// closing the transport leaves the read loop parked: that action cannot be waited for)
 	rest := 0
-	if closer == "shutdown-busy-sender" && rig.T.InRead() > 0 {
+	if (closer == "shutdown-busy-sender" || closer == "user") && rig.T.InRead() > 0 {
 		rest = 1
 	}
 	if !rig.Ex.WaitOutstanding(rest, 10*time.Second) {
@@ -327,14 +347,14 @@ func c11Grid(c *core.Ctx, id string, m mon.Mode, q int, closer, argName string, 
 			argClass = "nil-arg"
 		}
 		if cl.err == nil {
-			c.Violation(fmt.Sprintf("C11:success-after-close:%s:%s:%s", c11Entries[cl.entry], modeClass(m), argClass), id,
-				fmt.Sprintf("%s returned a nil error on a channel whose Close (by %s, argument %s) had completed; mode=%s Q=%d payload=%dB", c11Entries[cl.entry], closer, argName, m, q, cl.size),
-				map[string]interface{}{"mode": m.String(), "queue": q, "closer": closer, "arg": argName, "entry": c11Entries[cl.entry], "ops": mon.OpString(ops)})
+			c.Violation(fmt.Sprintf("C11:success-after-close:%s:%s:%s", c11EntryName(cl.entry), modeClass(m), argClass), id,
+				fmt.Sprintf("%s returned a nil error on a channel whose Close (by %s, argument %s) had completed; mode=%s Q=%d payload=%dB", c11EntryName(cl.entry), closer, argName, m, q, cl.size),
+				map[string]interface{}{"mode": m.String(), "queue": q, "closer": closer, "arg": argName, "entry": c11EntryName(cl.entry), "ops": mon.OpString(ops)})
 		}
 		if reached {
-			c.Violation(fmt.Sprintf("C11:transmitted-after-close:%s:%s", c11Entries[cl.entry], modeClass(m)), id,
-				fmt.Sprintf("payload of %s issued after Close (by %s, argument %s) completed was %s; mode=%s Q=%d err=%v", c11Entries[cl.entry], closer, argName, sent[[2]int{cl.entry, cl.seq}], m, q, cl.err),
-				map[string]interface{}{"mode": m.String(), "queue": q, "closer": closer, "arg": argName, "entry": c11Entries[cl.entry], "ops": mon.OpString(ops)})
+			c.Violation(fmt.Sprintf("C11:transmitted-after-close:%s:%s", c11EntryName(cl.entry), modeClass(m)), id,
+				fmt.Sprintf("payload of %s issued after Close (by %s, argument %s) completed was %s; mode=%s Q=%d err=%v", c11EntryName(cl.entry), closer, argName, sent[[2]int{cl.entry, cl.seq}], m, q, cl.err),
+				map[string]interface{}{"mode": m.String(), "queue": q, "closer": closer, "arg": argName, "entry": c11EntryName(cl.entry), "ops": mon.OpString(ops)})
 		}
 	}
 	if c.WantSample() {
